@@ -165,17 +165,30 @@ func defScript(c *Case) (setup, define string, probes []string, err error) {
 		define = fmt.Sprintf("Object.defineProperties(t, {%s: %s})", name, d)
 	case "twice":
 		define = fmt.Sprintf("try { Object.defineProperty(t, %s, %s) } catch (e) {} Object.defineProperty(t, %s, %s)", name, d, name, d)
+	case "afterData":
+		define = fmt.Sprintf("try { Object.defineProperty(t, %s, {value: 1, writable: true, enumerable: true, configurable: true}) } catch (e) {} Object.defineProperty(t, %s, %s)", name, name, d)
+	case "afterAccessor":
+		define = fmt.Sprintf("try { Object.defineProperty(t, %s, {get: function(){ return 2 }, set: undefined, enumerable: true, configurable: true}) } catch (e) {} Object.defineProperty(t, %s, %s)", name, name, d)
+	case "afterAccessorUndef":
+		define = fmt.Sprintf("try { Object.defineProperty(t, %s, {get: undefined, configurable: true}) } catch (e) {} Object.defineProperty(t, %s, %s)", name, name, d)
 	default:
 		return "", "", nil, fmt.Errorf("unknown route %q", c.Route)
 	}
 	probes = []string{
-		fmt.Sprintf("Object.getOwnPropertyDescriptor(t, %s)", name),
+		fmt.Sprintf("var C02_d = Object.getOwnPropertyDescriptor(t, %s); C02_d", name),
+		"JSON.stringify(C02_d)", "Object.keys(C02_d || {}).join()", "String(C02_d)",
 		fmt.Sprintf("t[%s]", name),
 		fmt.Sprintf("t[%s] = 3", name),
 		fmt.Sprintf("Object.keys(t).length + Object.getOwnPropertyNames(t).length"),
 		fmt.Sprintf("delete t[%s]", name),
 		fmt.Sprintf("t[%s]", name),
 		"String(t)",
+	}
+	// every field of the descriptor read back is an ordinary value: use it as one
+	for _, fld := range []string{"value", "get", "set"} {
+		x := "(C02_d || {})." + fld
+		probes = append(probes, "String("+x+")", "typeof "+x, x+" && "+x+".foo", x+" && Object.keys(Object("+x+")).length",
+			"typeof "+x+" === 'function' ? "+x+".call(t, 1) : 0", x+" instanceof Object", "JSON.stringify(["+x+"])", x+" === undefined || "+x+" == null || "+x+".constructor")
 	}
 	return t[0], define, probes, nil
 }
@@ -199,6 +212,23 @@ func execDef(vm *otto.Otto, c *Case) Obs {
 			return o
 		}
 	}
+	// the Go accessors on the descriptor read back and on its fields
+	for _, ex := range []string{"C02_d", "(C02_d || {}).value", "(C02_d || {}).get", "(C02_d || {}).set"} {
+		var dv otto.Value
+		if o := guard(func() error { x, err := vm.Run(ex); dv = x; return err }); o.Kind != "value" {
+			if o.Kind != "error" {
+				o.Msg = "reading " + ex + ": " + o.Msg
+				return o
+			}
+			continue
+		}
+		for _, a := range []string{"String", "Export", "MarshalJSON", "Class", "IsFunction", "Object.Keys", "Object.Call"} {
+			if o := applyAcc(vm, a, dv); o.Kind != "value" && o.Kind != "error" {
+				o.Msg = a + " on " + ex + " of the descriptor read back: " + o.Msg
+				return o
+			}
+		}
+	}
 	// the Go accessors on the target as well
 	var tv otto.Value
 	if o := guard(func() error { x, err := vm.Get("t"); tv = x; return err }); o.Kind == "value" {
@@ -207,6 +237,81 @@ func execDef(vm *otto.Otto, c *Case) Obs {
 				o.Msg = a + " on the target after the definition: " + o.Msg
 				return o
 			}
+		}
+	}
+	return res
+}
+
+// bwTargets: the bridged object and the property written.
+var bwTargets = map[string][2]string{
+	"structInt": {"C02_struct", "A"}, "structString": {"C02_struct", "B"}, "structSlice": {"C02_struct", "C"}, "structMap": {"C02_struct", "D"},
+	"structUnknown": {"C02_struct", "zz"}, "structMethod": {"C02_struct", "Inc"},
+	"mapSIKey": {"C02_mapsi", "a"}, "mapSINew": {"C02_mapsi", "zz"}, "mapISKey": {"C02_mapis", "1"}, "mapISBad": {"C02_mapis", "zz"},
+	"mapSPKey": {"C02_mapsp", "k"}, "mapSPNew": {"C02_mapsp", "x"},
+	"sliceIndex0": {"C02_slice", "0"}, "sliceIndex9": {"C02_slice", "9"}, "sliceLength": {"C02_slice", "length"}, "sliceNeg": {"C02_slice", "-1"},
+	"arrayIndex0": {"C02_arr", "0"}, "arrayIndex9": {"C02_arr", "9"}, "arrayLength": {"C02_arr", "length"},
+	"sliceNamed": {"C02_slice", "foo"}, "arrayNamed": {"C02_arr", "foo"}, "nestedSliceLength": {"C02_nested.C", "length"}, "funcProp": {"C02_func", "length"},
+}
+
+func bwText(c *Case) string {
+	t, ok := bwTargets[c.Target]
+	if !ok {
+		return "unknown target " + c.Target
+	}
+	v := valExpr(c.Val)
+	name := fmt.Sprintf("%q", t[1])
+	switch c.Route {
+	case "put":
+		return fmt.Sprintf("%s[%s] = %s", t[0], name, v)
+	case "defineValue":
+		return fmt.Sprintf("Object.defineProperty(%s, %s, {value: %s, writable: true, enumerable: true, configurable: true})", t[0], name, v)
+	case "delete":
+		return fmt.Sprintf("%s[%s] = %s; delete %s[%s]", t[0], name, v, t[0], name)
+	case "putLengthBig":
+		// the value scaled up: lengths and indexes far beyond what can be allocated
+		return fmt.Sprintf("%s[%s] = (%s) * 1e18", t[0], name, v)
+	case "goSet":
+		return fmt.Sprintf("<Go> Object(%s).Set(%s, %s)", t[0], name, v)
+	}
+	return "unknown route " + c.Route
+}
+
+func execBw(vm *otto.Otto, c *Case) Obs {
+	t, ok := bwTargets[c.Target]
+	if !ok {
+		return Obs{Kind: "harness", Msg: "unknown target " + c.Target}
+	}
+	var res Obs
+	if c.Route == "goSet" {
+		var tv, vv otto.Value
+		if o := guard(func() error {
+			x, err := vm.Run(t[0])
+			if err != nil {
+				return err
+			}
+			tv = x
+			vv, err = vm.Run(valExpr(c.Val))
+			return err
+		}); o.Kind != "value" {
+			return Obs{Kind: "harness", Msg: "operands: " + o.Msg}
+		}
+		ob := tv.Object()
+		if ob == nil {
+			return Obs{Kind: "harness", Msg: "target is not an object"}
+		}
+		res = guard(func() error { return ob.Set(t[1], vv) })
+	} else {
+		src := bwText(c)
+		res = guard(func() error { _, err := vm.Run(src); return err })
+	}
+	if res.Kind != "value" && res.Kind != "error" {
+		return res
+	}
+	// the value must remain usable
+	for _, p := range []string{t[0] + "[" + fmt.Sprintf("%q", t[1]) + "]", "String(" + t[0] + ")", "JSON.stringify(" + t[0] + ")", "Object.keys(" + t[0] + ").length"} {
+		if o := guard(func() error { _, err := vm.Run(p); return err }); o.Kind != "value" && o.Kind != "error" {
+			o.Msg = "probe " + p + " after the write: " + o.Msg
+			return o
 		}
 	}
 	return res
